@@ -557,3 +557,29 @@ package constraint
 //@   props C16
 //@   nopanic
 //@   ensures result == c.astNode
+
+// ---- C02/C18: "enum as type-sensitive membership"; duplicates rejected ----
+//@ func NewEnumItem(b, c)
+//@   props C02 C18
+//@   requires len(b) <= 1000000000000
+//@   maypanic
+//@   ensures normal ==> result.src == b && result.comment == c && result.jsonType != 0
+//@   defines normal ==> result.value == eText(b) && result.jsonType == eKind(b)
+
+//@ func (Enum).Validate(a)
+//@   props C02 C18
+//@   requires len(a) <= 1000000000000
+//@   maypanic
+//@   ensures normal ==> (exists j :: 0 <= j && j < len(c.items) && c.items[j].value == eText(a) && c.items[j].jsonType == eKind(a))
+//@   ensures (forall j :: 0 <= j && j < len(c.items) ==> !(c.items[j].value == eText(a) && c.items[j].jsonType == eKind(a))) ==> panics
+//@   loop 0 invariant forall j :: 0 <= j && j <= rangeindex ==> !(c.items[j].value == aa.value && c.items[j].jsonType == aa.jsonType)
+
+//@ func (*Enum).Append(i)
+//@   props C18 C02
+//@   requires c != nil && c.uniqueIdx != nil
+//@   maypanic
+//@   modifies c.items, c.items[*], c.uniqueIdx[*]
+//@   ensures panics <==> old(dom(c.uniqueIdx, i.enumItemValue))
+//@   ensures normal ==> result == old(len(c.items)) && len(c.items) == old(len(c.items)) + 1 && c.items[result].value == i.value && c.items[result].jsonType == i.jsonType && c.items[result].comment == i.comment
+//@   ensures normal ==> (forall j :: 0 <= j && j < old(len(c.items)) ==> c.items[j] == old(c.items[j]))
+//@   ensures panics ==> errWF(pv)
